@@ -189,7 +189,7 @@ def _pool_scenario(seed, params, workers, long_every, default_n):
 
 @scenario("scheduling.work_stealing_uneven", FAMILY)
 def work_stealing_uneven(seed, params):
-    return _pool_scenario(seed, params, lambda p: p.cap(2) + 1, True, 15)
+    return _pool_scenario(seed, params, lambda p: p.count(0, 3, lo=2), True, 15)
 
 
 @scenario("scheduling.work_stealing_single_worker", FAMILY)
@@ -206,7 +206,7 @@ def work_stealing_more_workers_than_tasks(seed, params):
 def work_stealing_custom_key(seed, params):
     """Custom processing_time_key, no downstream; a second wave arrives while the workers are busy."""
     p = P(params, seed)
-    pool = WorkStealingPool("pool", num_workers=p.cap(2), processing_time_key="cost", default_processing_time=p.lat(2))
+    pool = WorkStealingPool("pool", num_workers=p.count(1, 2), processing_time_key="cost", default_processing_time=p.lat(2))
     arr = p.arrivals(10)
     hold_ns = max(1, int(p.hold() * 1e9))
     wave = [min(arr) + hold_ns * k + (k % 2) for k in range(1, 9)]
@@ -218,3 +218,135 @@ def work_stealing_custom_key(seed, params):
         sim.schedule(ev(t, "Task", pool, **md))
     comps = {"pool": pool, **{w.name: w for w in pool.workers}}
     return Scenario(sim, comps, FAMILY, True, len(arr) + len(wave))
+
+
+# ----------------------------------------------------------------------
+# degenerate operations / zero durations
+
+
+@scenario("scheduling.work_stealing_zero_time", FAMILY)
+def work_stealing_zero_time(seed, params):
+    """Most tasks take ZERO simulated time (default_processing_time 0.0), a few are long; p.count workers."""
+    p = P(params, seed)
+    sink = Sink("sink")
+    pool = WorkStealingPool("pool", num_workers=p.count(0, 3), downstream=sink, default_processing_time=0.0)
+    arr = p.arrivals(14)
+    sim = make_sim([pool, sink], p.end())
+    for i, t in enumerate(arr):
+        md = {"seq": i}
+        if i % 5 == 2:
+            md["processing_time"] = p.hold()
+        elif i % 5 in (1, 4):
+            md["processing_time"] = p.lat(i)
+        sim.schedule(ev(t, "Task", pool, **md))
+    comps = {"pool": pool, "sink": sink, **{w.name: w for w in pool.workers}}
+    return Scenario(sim, comps, FAMILY, True, len(arr))
+
+
+@scenario("scheduling.work_stealing_one_worker_zero_time", FAMILY)
+def work_stealing_one_worker_zero_time(seed, params):
+    """ONE worker, explicit processing_time 0 on every second task, no downstream."""
+    p = P(params, seed)
+    pool = WorkStealingPool("pool", num_workers=1, default_processing_time=p.lat(0))
+    arr = p.arrivals(9)
+    sim = make_sim([pool], p.end())
+    for i, t in enumerate(arr):
+        md = {"seq": i}
+        if i % 2 == 0:
+            md["processing_time"] = 0.0
+        sim.schedule(ev(t, "Task", pool, **md))
+    return Scenario(sim, {"pool": pool, **{w.name: w for w in pool.workers}}, FAMILY, True, len(arr))
+
+
+def _degenerate_jobs(seed, params, with_deps):
+    """interval 0 ("every tick"), interval << tick, interval >> tick; zero-time and slow targets."""
+    p = P(params, seed)
+    tick = period(p, 0, 600)  # the 30-tick script fits into half of the run
+    tick_ns = max(1, int(tick * 1e9))
+    instant = Recorder("instant")  # completes in zero simulated time
+    zero = Replier("zero", 0.0, downstream=instant)  # generator that yields a zero delay
+    slow = Replier("slow", tick * 3.3)  # overruns every interval below
+    quick = Replier("quick", below(p.lat(1), tick))
+    sink = Sink("sink")
+    server = Server("jobsrv", concurrency=1, service_time=ConstantLatency(below(p.lat(2), tick)), downstream=sink)
+    js = JobScheduler("jobs", tick_interval=tick)
+    dep = (lambda *names: list(names)) if with_deps else (lambda *names: [])
+    js.add_job(JobDefinition("every", instant, "Every", interval=0.0, priority=3))
+    js.add_job(JobDefinition("every_gen", zero, "EveryGen", interval=0.0, priority=2, depends_on=dep("every")))
+    js.add_job(JobDefinition("tiny", quick, "Tiny", interval=tick / 1000.0, depends_on=dep("every_gen")))
+    js.add_job(JobDefinition("huge", instant, "Huge", interval=tick * 50.0, priority=9))
+    js.add_job(JobDefinition("overrun", slow, "Overrun", interval=tick, depends_on=dep("every")))
+    js.add_job(JobDefinition("queued", server, "Queued", interval=0.0, priority=1, depends_on=dep("overrun")))
+    for k in range(p.count(0, 2, hi=9)):
+        js.add_job(JobDefinition(f"x{k}", instant if k % 2 else zero, "X", interval=0.0 if k % 3 else tick * 0.5, priority=k))
+    arr = p.arrivals(6)
+    t0 = min(arr)
+
+    def control(proc, event):
+        kind = event.event_type
+        if kind == "begin":
+            return [js.start()]
+        if kind == "disable":
+            js.disable_job("overrun")  # while it runs
+            js.disable_job("every")
+        elif kind == "enable":
+            js.enable_job("overrun")
+            js.enable_job("every")
+        elif kind == "remove":
+            js.remove_job("overrun")  # its _job_complete arrives for an unknown job
+        else:
+            js.stop()
+            proc.done += 1
+        return None
+
+    ctl = Proc("control", control)
+    sim = make_sim([js, instant, zero, slow, quick, server, sink, ctl], p.end())
+    for i, t in enumerate(arr):
+        sim.schedule(ev(t, "Request", server, seq=i))
+    sim.schedule(ev(t0, "begin", ctl))
+    sim.schedule(ev(t0 + tick_ns * 4 + tick_ns // 2, "disable", ctl))
+    sim.schedule(ev(t0 + tick_ns * 9, "enable", ctl))
+    sim.schedule(ev(t0 + tick_ns * 14 + 1, "remove", ctl))
+    sim.schedule(ev(t0 + tick_ns * 30, "end", ctl))
+    comps = {"jobs": js, "instant": instant, "zero": zero, "slow": slow, "quick": quick, "jobsrv": server, "sink": sink}
+    return Scenario(sim, comps, FAMILY, True, len(arr) + 5)
+
+
+@scenario("scheduling.job_interval_zero", FAMILY)
+def job_interval_zero(seed, params):
+    return _degenerate_jobs(seed, params, with_deps=False)
+
+
+@scenario("scheduling.job_interval_zero_deps", FAMILY)
+def job_interval_zero_deps(seed, params):
+    return _degenerate_jobs(seed, params, with_deps=True)
+
+
+@scenario("scheduling.job_only_instant_targets", FAMILY)
+def job_only_instant_targets(seed, params):
+    """Every job has interval 0, no depends_on and a target that completes in zero time; tick straight from p.lat."""
+    p = P(params, seed)
+    tick = p.lat(0)
+    tick_ns = max(1, int(tick * 1e9))
+    instant = Recorder("instant")
+    zero = Replier("zero", 0.0)
+    js = JobScheduler("jobs", tick_interval=tick)
+    for k in range(p.count(0, 3)):
+        js.add_job(JobDefinition(f"j{k}", zero if k % 2 else instant, "J", interval=0.0, priority=k % 3))
+    arr = p.arrivals(4)
+    t0 = min(arr)
+
+    def control(proc, event):
+        if event.event_type == "begin":
+            return [js.start()]
+        js.stop()
+        proc.done += 1
+        return None
+
+    ctl = Proc("control", control)
+    sim = make_sim([js, instant, zero, ctl], p.end())
+    for i, t in enumerate(arr):
+        sim.schedule(ev(t, "Poke", instant, seq=i))
+    sim.schedule(ev(t0, "begin", ctl))
+    sim.schedule(ev(t0 + tick_ns * 60, "end", ctl))
+    return Scenario(sim, {"jobs": js, "instant": instant, "zero": zero}, FAMILY, True, len(arr) + 2)
